@@ -19,6 +19,7 @@ PROPERTY = 'C02'
 THOROUGH_SCALE = 2.0
 
 QKINDS = ['none', 'loc', 'bloc', 'pars', 'own_src', 'own_src_F', 'nav', 'views', 'all']
+QK1 = ['none', 'bloc', 'pars', 'own_src', 'all']
 
 
 def _q_one(f, kind):
@@ -95,11 +96,11 @@ def observe(root, order_first):
 
 
 def check_fresh(root, root0, sig, order_first=0):
+    check(root is root0, sig + '.root_identity_lost')
+    got = observe(root, order_first)            # traced: the live tree may still hold symbolic ints (pfield.idx, cached locs)
     with pc.untraced():
-        check(root is root0, sig + '.root_identity_lost')
-        src = root.src
-        pc.realize_tree(root.a)
-        got = observe(root, order_first)
+        src = pc.R(root.src)
+        got = pc.R(got)
         fresh = FST(src, 'exec')
         exp = observe(fresh, 0)
         check(len(got) == len(exp), sig + '.node_count_differs_from_fresh_parse', (len(got), len(exp)))
@@ -107,21 +108,21 @@ def check_fresh(root, root0, sig, order_first=0):
             if g != e:
                 keys = [k for k in e if g.get(k) != e.get(k)]
                 fail(sig + '.answer_differs_from_fresh_tree.' + keys[0], (src, g['type'], g['i'], keys, [(g.get(k), e.get(k)) for k in keys][:3]))
-        pc.links_ok(root, sig)
+    pc.links_ok(root, sig)
 
 
 def _mk_edit(cid, opname, k):
     c = pc.CARRIER[cid]
 
-    def fn(q: int, a: int, b: int, of: int):
-        assume(0 <= q < len(QKINDS) and 0 <= of <= 2)
-        kind = QKINDS[pc.pin(q, 0, len(QKINDS) - 1)]
-        of_ = pc.pin(of, 0, 2)
+    def fn(q: int, a: int, b: int):
+        assume(0 <= q < len(QK1))
+        qi = pc.pin(q, 0, len(QK1) - 1)
+        kind = QK1[qi]
+        of_ = qi % 3
         x = pc.Ctx(c)
         root0 = x.root
         sig = f'{cid}.{opname}[{k}].after_{kind}'
-        with pc.untraced():
-            prequery(x.root, kind)
+        prequery(x.root, kind)
         exp, run = pc.OPS[opname](x, k, a, b, 0, 0)
         try:
             with FST.options(**pc.OPTS):
@@ -141,12 +142,12 @@ COMMENTS = ['a much longer comment than before', 'x', None]
 DOCS = ['New doc', 'Two\nlines "quoted" \\ back', None]
 
 
-def _mk_accessor(kind):
-    def fn(q: int, k: int, t: int, of: int, second: int):
-        assume(0 <= q < len(QKINDS) and 0 <= of <= 2 and 0 <= t <= 2 and 0 <= second <= 2)
-        qk = QKINDS[pc.pin(q, 0, len(QKINDS) - 1)]
-        of_ = pc.pin(of, 0, 2)
-        ti = pc.pin(t, 0, 2)
+def _mk_accessor(kind, ti, sec):
+    def fn(q: int, k: int):
+        assume(0 <= q < len(QKINDS))
+        qi = pc.pin(q, 0, len(QKINDS) - 1)
+        qk = QKINDS[qi]
+        of_ = qi % 3
         with pc.untraced():
             root = FST(ACC_SRC, 'exec')
             pc.reset_globals()
@@ -169,7 +170,6 @@ def _mk_accessor(kind):
             cover('raise')
         check_fresh(root, root, sig, of_)
         # a following structural edit must not act on stale answers either (delete / replace the statement just touched)
-        sec = pc.pin(second, 0, 2)
         if kind == 'line_comment' and sec and tgt.parent is not None and tgt.a is not None:
             par = tgt.parent
             try:
@@ -206,12 +206,16 @@ _Q = {('list4c', 'put_slice', 2), ('ifbody3', 'put_slice', 1), ('funcbody', 'ins
 for _c in pc.CARRIERS:
     for _op, _k in (('put_slice', 2), ('put_slice', 1), ('put_slice', 0), ('insert', 1), ('view_delslice', 1), ('view_setitem', 1)):
         CELLS.append(Cell(f'P1.{_c.id}.{_op}[{_k}]', _mk_edit(_c.id, _op, _k), 'P', pc.FN_EDIT + FNQ,
-                          f'carrier {_c.id}; pre-queries of a symbolic kind ({len(QKINDS)} kinds) on all nodes; op {_op}[{_k}] with symbolic ints over Z; '
+                          f'carrier {_c.id}; pre-queries of a symbolic kind ({len(QK1)} kinds) on all nodes; op {_op}[{_k}] with symbolic ints over Z; '
                           'then ~15 kinds of answers on EVERY node compared with FST(root.src) built from scratch (own_src variants asked in a symbolic order)',
                           tier='quick' if (_c.id, _op, _k) in _Q else 'thorough', budget=900, per_path=90, out='histories > 1 edit (P2 has 3 for comments); queries not listed',
                           reset=pc.reset_globals))
 for _kind in ('line_comment', 'docstr', 'noedit'):
-    CELLS.append(Cell(f'P2.accessor[{_kind}]', _mk_accessor(_kind), 'P', FNQ,
-                      f'carrier with docstring, block comments and nested blocks; pre-query kind symbolic; target statement/def ordinal symbolic; text choice symbolic; '
-                      + ('then remove/replace of the touched statement and of its enclosing block (3-step history)' if _kind == 'line_comment' else ''),
-                      tier='quick', budget=900, per_path=90, reset=pc.reset_globals))
+    for _ti in ((0, 1, 2) if _kind != 'noedit' else (0,)):
+        for _sec in ((0, 1, 2) if _kind == 'line_comment' else (0,)):
+            CELLS.append(Cell(f'P2.accessor[{_kind},text={_ti},then={_sec}]', _mk_accessor(_kind, _ti, _sec), 'P', FNQ,
+                              f'carrier with docstring, block comments and nested blocks; pre-query kind symbolic ({len(QKINDS)} kinds); target statement/def ordinal symbolic; '
+                              f'text choice {_ti} ({(COMMENTS if _kind == "line_comment" else DOCS)[_ti]!r}); '
+                              + ('then ' + ['nothing', 'remove', 'replace'][_sec] + ' of the touched statement and removal of its enclosing block (3-step history)' if _kind == 'line_comment' else ''),
+                              tier='quick' if (_kind != 'line_comment' and _ti == 0) or (_kind == 'line_comment' and _ti == 0) else 'thorough',
+                              budget=600, per_path=90, reset=pc.reset_globals))
